@@ -460,6 +460,22 @@ TEXT_EDITS = [
     ('optree.py', 'op_sum = op_sum + op', 'op_sum = op + op_sum', 'silent', ['C17'], '_subtree_as_matrix: summands swapped (benign)'),
     ('minimization.py', 'for i in reversed(range(L - 1)):', 'for i in reversed(range(L - 2)):', 'violation', ['C10'],
      'two-site DMRG: right-to-left sweep skips the last pair'),
+    ('opgraph.py', 'coeffs_next = [chain.coeff for chain in chains]', 'coeffs_next = [c.coeff for c in chains]', 'silent', ['C05', 'C07'],
+     'from_opchains: comprehension variable of the coefficient list renamed (benign)'),
+    ('opgraph.py', 'coeffs_next = [chain.coeff for chain in chains]', 'coeffs_next = [chain.coeff for chain in chains if chain.coeff != 0]',
+     'violation', ['C05'], 'from_opchains: coefficient list filtered differently from the half-chain list'),
+    ('opgraph.py', '                    coeffs_next.append(gamma[(i, j)])\n', '', 'violation', ['C05'],
+     'from_opchains: half-chain appended without its coefficient'),
+    ('opgraph.py', "        if coeffs_next[0] != 1.0:", "        if coeffs_next[0] != 1:", 'silent', ['C05', 'C07'],
+     'from_opchains: pending test against the integer 1 (benign)'),
+    ('opgraph.py', '        edge = (i, j)\n        if edge in edges:', '        edge = (i, j)\n        if coeff == 0:\n            continue\n        if edge in edges:',
+     'violation', ['C05'], '_site_partition_halfchains: zero coefficients skip the edge'),
+    ('mpo.py', '                op = op.reshape((n**2, -1))\n', '                op = op.reshape((n**2, -1))\n                op.eliminate_zeros()\n',
+     'silent', ['C03'], 'MPO.as_matrix: exact zeros removed from the sparse intermediate (benign)'),
+    ('mpo.py', '                op = op.reshape((n**2, -1))\n', '                op = op.reshape((n**2, -1))\n                op.data[np.abs(op.data) < 1e-14] = 0\n',
+     'violation', ['C03'], 'MPO.as_matrix: small entries of the sparse intermediate zeroed'),
+    ('mps.py', '                mask = qnumber_outer_sum([self.qd, self.qD[i], -self.qD[i+1]])', '                mask = qnumber_outer_sum([self.qd, self.qD[i], -self.qD[i]])',
+     'violation', ['C02'], 'MPS.__init__: mask built from the wrong label'),
 ]
 
 
